@@ -60,11 +60,19 @@ class _RecHandler(logging.Handler):
         except Exception:
             msg = str(record.msg)
         exc = None
+        site = None
         if record.exc_info and record.exc_info[1] is not None:
             e = record.exc_info[1]
             exc = '%s: %s' % (type(e).__name__, e)
+            try:
+                import traceback
+                tb = traceback.extract_tb(e.__traceback__)
+                site = tb[-1].name if tb else None
+            except Exception:
+                site = None
         if record.levelno >= logging.ERROR:
-            ev = self.rec.add('log_error', who=self.who, msg=msg, exc=exc)
+            ev = self.rec.add('log_error', who=self.who, msg=msg, exc=exc,
+                              site=site)
             self.rec.errors.append(ev)
         else:
             self.rec.add('log_warning', who=self.who, msg=msg)
